@@ -442,11 +442,13 @@ def _set_adaptive_neighborhood_size(
             # Start with k = i + 1, since state vectors closer than the (i+1)th
             # nearest neighbor are already connected to j at this stage
             k = i + 1
-            while recurrence[l, sorted_neighbors[l, k]] == 1 and k < n_time:
+            while k < n_time and recurrence[l, sorted_neighbors[l, k]] == 1:
                 k += 1
             # add a "new" nearest neighbor of l to the recurrence plot
-            recurrence[l, sorted_neighbors[l, k]] = \
-                recurrence[sorted_neighbors[l, k], l] = 1
+            # (unless l is already connected to all other state vectors)
+            if k < n_time:
+                recurrence[l, sorted_neighbors[l, k]] = \
+                    recurrence[sorted_neighbors[l, k], l] = 1
 
 
 def _bootstrap_distance_matrix_manhattan(
